@@ -129,9 +129,24 @@ func OracleProfile(seed int64, out *Recorder, nOps int) *Chain {
 			}
 			wait := []int64{0, 1, 2, 3, 4, -1}[rng.Intn(6)]
 			valid := []time.Duration{0, time.Second, 20 * time.Second, time.Hour}[rng.Intn(4)]
-			c.Do(who, []D{{"t": "oracle.createTask", "contract": contract, "function": function, "bounty": CoinsJ(bounty), "wait": wait,
+			res := c.Do(who, []D{{"t": "oracle.createTask", "contract": contract, "function": function, "bounty": CoinsJ(bounty), "wait": wait,
 				"valid": fmt.Sprint(valid.Nanoseconds()), "creator": Hex(ac.Addr)}},
 				oracletypes.NewMsgCreateTask(contract, function, bounty, "d", ac.Addr, wait, valid))
+			// a burst of responses from several current operators, boundary scores included
+			if res.Code == 0 && len(ops) > 0 && rng.Intn(3) > 0 {
+				perm := rng.Perm(len(ops))
+				nresp := 1 + rng.Intn(len(ops))
+				for _, pi := range perm[:nresp] {
+					oa, _ := sdk.AccAddressFromBech32(ops[pi].Address)
+					si := c.idxOf(oa, -1)
+					if si < 0 {
+						continue
+					}
+					score := []int64{0, 0, 1, 20, 49, 50, 51, 80, 99, 100}[rng.Intn(10)]
+					c.Do(si, []D{{"t": "oracle.respond", "contract": contract, "function": function, "score": score, "op": Hex(oa)}},
+						oracletypes.NewMsgTaskResponse(contract, function, score, oa))
+				}
+			}
 		case r < 96:
 			tasks := k.GetAllTasks(ctx)
 			contract := contracts[rng.Intn(len(contracts))]
